@@ -240,7 +240,7 @@ func checkC13(p *Prog, r *Report) {
 						continue
 					}
 					/* transport → (interface, variables, joins) → client.Transport */
-					fpStart := Loc{fpIf.Block().Succs[setSucc], -1}
+					fpStart := edgeLoc(fpIf.Block(), setSucc)
 					onFpBranch := func(b *ssa.BasicBlock) bool {
 						return b == fpStart.B || 0 != len(b.Instrs) && canReach(fpStart, b.Instrs[0])
 					}
@@ -322,8 +322,8 @@ func checkC13(p *Prog, r *Report) {
 		if d2.Eq {
 			notHTTPS = 1
 		}
-		if nil == (reachQ{From: Loc{ifi.Block().Succs[notHTTPS], -1}, Target: func(i ssa.Instruction) bool { return i == ssa.Instruction(req) }}).run() {
-			miss := reachQ{From: Loc{fpIf.Block().Succs[setSucc], -1}, Block: func(i ssa.Instruction) bool { return i == ssa.Instruction(ifi) }, Target: func(i ssa.Instruction) bool { return i == ssa.Instruction(req) }}.run()
+		if nil == (reachQ{From: edgeLoc(ifi.Block(), notHTTPS), Target: func(i ssa.Instruction) bool { return i == ssa.Instruction(req) }}).run() {
+			miss := reachQ{From: edgeLoc(fpIf.Block(), setSucc), Block: func(i ssa.Instruction) bool { return i == ssa.Instruction(ifi) }, Target: func(i ssa.Instruction) bool { return i == ssa.Instruction(req) }}.run()
 			if nil == miss {
 				schemeOK = true
 			}
@@ -342,7 +342,7 @@ func checkC13(p *Prog, r *Report) {
 	} else {
 		okk := false
 		for _, t := range nilTestsOf(goFn, verr) {
-			if nil == (reachQ{From: Loc{t.If.Block().Succs[1-t.NilSucc], -1}, Target: func(i ssa.Instruction) bool { return i == ssa.Instruction(req) }}).run() {
+			if nil == (reachQ{From: edgeLoc(t.If.Block(), 1-t.NilSucc), Target: func(i ssa.Instruction) bool { return i == ssa.Instruction(req) }}).run() {
 				okk = true
 			}
 		}
